@@ -30,7 +30,7 @@ func main() {
 	defer cleanup()
 
 	// 4: linearizability of the bare queue object (in this process)
-	queueLinearizability(c, c.N(300, 6000))
+	queueLinearizability(c, c.N(300, 4000))
 
 	type batch struct {
 		idx    int
@@ -40,21 +40,21 @@ func main() {
 		mode   string
 	}
 	var batches []batch
-	nb := c.N(24, 400)
+	nb := c.N(24, 160)
 	modes := []string{"random", "hold-drainer", "hold-engine-exit", "none", "random", "hold-both"}
 	for i := 0; i < nb; i++ {
 		b := batch{idx: i, nscen: 14, ngpu: 1 + i%2, mode: modes[i%len(modes)]}
 		batches = append(batches, b)
 	}
 	// timing platform (DMA copy path, caches, flushes): fewer, slower scenarios
-	nt := c.N(12, 160)
+	nt := c.N(12, 64)
 	for i := 0; i < nt; i++ {
 		batches = append(batches, batch{idx: 500 + i, nscen: 4, ngpu: 1 + i%2, mode: modes[i%len(modes)], timing: true})
 	}
 	// the plain blocking-copy loop that exposed both liveness defects
-	loops := c.N(4, 48)
+	loops := c.N(4, 16)
 	for i := 0; i < loops; i++ {
-		batches = append(batches, batch{idx: 1000 + i, nscen: -c.N(6000, 40000), ngpu: 1, mode: modes[i%len(modes)]})
+		batches = append(batches, batch{idx: 1000 + i, nscen: -c.N(6000, 25000), ngpu: 1, mode: modes[i%len(modes)]})
 	}
 
 	// canonical reproducers (seed independent), one child each
@@ -76,7 +76,7 @@ func main() {
 			strconv.FormatBool(b.timing), strconv.Itoa(b.ngpu), b.mode}
 		dirTag := fmt.Sprintf("b%d", b.idx)
 		raceLog := filepath.Join(scratch, dirTag+"-race")
-		res := vlib.RunChild(scratch, 15*time.Minute,
+		res := vlib.RunChild(scratch, 45*time.Minute,
 			[]string{"GORACE=halt_on_error=0 log_path=" + raceLog, "GOMAXPROCS=" + strconv.Itoa(2+i%7)}, args...)
 		notes := c.AbsorbFile(res.RecPath)
 		_, finished := notes["done"]
